@@ -496,6 +496,35 @@ fn gen_op(r: &mut Rng, m: &FsModel, cfg: &Cfg, prop: &str, step: usize) -> Op {
         }
         8 => {
             let path = pick_path(r, Some(true));
+            // prefer the reader that fits what is stored there
+            if r.chance(3, 5) {
+                if let Ok(c) = model_path(hc, &path, loc) {
+                    if let Some(l) = m.find(&hc.stack, &c, Kind::File) {
+                        if let Some(Node::File(b)) = m.layers[l].node(&c) {
+                            let inner = if hc.game.compressed_name(&path) {
+                                match classify_for(hc.game, &b) {
+                                    Verdict::Conforming(d) => d,
+                                    _ => b.clone(),
+                                }
+                            } else {
+                                b.clone()
+                            };
+                            match sniff(&inner) {
+                                Some("archive") => {
+                                    return match r.below(3) {
+                                        0 => Op::ReadArchive { h, path, loc },
+                                        1 => Op::ReadText { h, path, loc },
+                                        _ => Op::ReadArc { h, path, loc },
+                                    }
+                                }
+                                Some("fe9arc") => return Op::ReadFe9Arc { h, path, loc },
+                                Some(k) => return Op::ReadTex { h, path, loc, kind: k.to_string() },
+                                None => {}
+                            }
+                        }
+                    }
+                }
+            }
             match r.weighted(&[22, 22, 14, 14, 8, 8, 12]) {
                 0 => Op::WriteArchive { h, path, loc, seed: r.next() },
                 1 => Op::ReadArchive { h, path, loc },
@@ -517,7 +546,7 @@ fn gen_env(r: &mut Rng, m: &FsModel, cfg: &Cfg, seeding: bool) -> Op {
         0 => {
             // files, often at a path that exists in another layer, sometimes valid typed content
             let path = if r.chance(1, 2) { existing_path(r, m, None).unwrap_or_else(|| gen_path(r, 1, 4, true)) } else { gen_path(r, 1, 4, true) };
-            let data = match r.weighted(&[50, 15, 15, 10, 10]) {
+            let data = match r.weighted(&[40, 12, 12, 10, 10, 5, 5, 10]) {
                 0 => gen_payload(r),
                 1 => {
                     let d = gen_payload(r);
@@ -530,7 +559,10 @@ fn gen_env(r: &mut Rng, m: &FsModel, cfg: &Cfg, seeding: bool) -> Op {
                     lz::wrap_lz13(&lz::encode_tokens(&t, true, 0), d.len() as u32)
                 }
                 3 => sample_archive_bytes(r.next(), r.chance(1, 2)),
-                _ => sample_text_bytes(r.next(), r.chance(1, 2)),
+                4 => sample_text_bytes(r.next(), r.chance(1, 2)),
+                5 => guarded(|| crate::scen::corrupt::pack_archive(r)).unwrap_or_default(),
+                6 => guarded(|| crate::scen::corrupt::arc_image(r)).unwrap_or_default(),
+                _ => sample_texture_container(r),
             };
             Op::EnvPut { l, path, data }
         }
@@ -544,6 +576,48 @@ fn gen_env(r: &mut Rng, m: &FsModel, cfg: &Cfg, seeding: bool) -> Op {
             kind: r.pick(&["flip", "trunc", "append", "zero", "set"]).to_string(),
             arg: r.next(),
         },
+    }
+}
+
+/// a small texture container from the TexPack packers
+fn sample_texture_container(r: &mut Rng) -> Vec<u8> {
+    use crate::model::texpack::{self, Tex};
+    let kind = r.below(4);
+    let n = r.range(1, 2);
+    let mut texs = Vec::new();
+    for i in 0..n {
+        if kind == 3 {
+            let (w, h) = (r.range(1, 12), r.range(1, 12));
+            texs.push(Tex { name: String::new(), width: w, height: h, format: 9, payload: r.bytes(texpack::ci8_size(w, h)), palette: r.bytes(512) });
+        } else {
+            let format = *r.pick(&[0u32, 3, 7, 12]);
+            texs.push(Tex { name: format!("t{}", i), width: 8, height: 8, format, payload: r.bytes(texpack::payload_size(format, 8, 8)), palette: Vec::new() });
+        }
+    }
+    match kind {
+        0 => texpack::pack_ctpk(r, &texs, false).bytes,
+        1 => texpack::pack_bch(r, &texs).bytes,
+        2 => texpack::pack_cgfx(r, &texs).bytes,
+        _ => texpack::pack_tpl(r, &texs, false).bytes,
+    }
+}
+
+/// which typed reader fits these stored bytes (by magic / shape)
+fn sniff(bytes: &[u8]) -> Option<&'static str> {
+    if bytes.starts_with(b"CTPK") {
+        Some("ctpk")
+    } else if bytes.starts_with(b"BCH\0") {
+        Some("bch")
+    } else if bytes.starts_with(b"CGFX") {
+        Some("cgfx")
+    } else if bytes.starts_with(&[0x00, 0x20, 0xAF, 0x30]) {
+        Some("tpl")
+    } else if bytes.starts_with(b"pack") {
+        Some("fe9arc")
+    } else if bytes.len() >= 0x20 {
+        Some("archive")
+    } else {
+        None
     }
 }
 
